@@ -192,6 +192,61 @@ pub fn run(thorough: bool, mut rng: Rng, mut out: Out) {
             judge(&mut out, &label, &o, 1 + queued, true);
         }
     }
+    // A search whose entries nobody reads must not stall the connection: with `n` entries of search #0 routed
+    // and unread (the caller is busy — e.g. it works on each entry with another operation on a clone of the
+    // handle), an operation issued afterwards is sent, answered and completes; when the server then goes away
+    // everything still pending fails and nobody hangs.  (The driver is the one task that reads the socket: if it
+    // ever waits for a stream's consumer, neither answers nor EOF are seen.)
+    for n in [1usize, 100, 255, 256, 257, 300, 700, 2000] {
+        for fault in [None, Some(Step::Close), Some(Step::Reset)] {
+            let mut sc = vec![Step::Issue { kind: OpKind::Search, tmo_ms: None }, Step::Settle];
+            for _ in 0..n {
+                sc.push(Step::Send { id: 1, op: 4, good: false });
+            }
+            sc.push(Step::Settle);
+            sc.push(Step::Next(0));                                              // one entry taken, the rest unread
+            sc.push(Step::Settle);
+            sc.push(Step::Issue { kind: OpKind::Single, tmo_ms: None });        // op 1, id 2
+            sc.push(Step::Settle);
+            sc.push(Step::Send { id: 2, op: 11, good: true });
+            sc.push(Step::Settle);
+            sc.push(Step::Issue { kind: OpKind::Search, tmo_ms: None });        // op 2, id 3
+            sc.push(Step::Issue { kind: OpKind::Single, tmo_ms: Some(60_000) }); // op 3, id 4: answered only if no fault follows
+            sc.push(Step::Settle);
+            sc.push(Step::Send { id: 3, op: 4, good: false });
+            sc.push(Step::Settle);
+            sc.push(Step::Next(2));
+            sc.push(Step::Settle);
+            let has_fault = fault.is_some();
+            if !has_fault {
+                sc.push(Step::Send { id: 4, op: 11, good: true });              // without a fault everybody is answered
+                sc.push(Step::Settle);
+            }
+            if let Some(f) = fault.clone() {
+                sc.push(f);
+                sc.push(Step::Settle);
+                sc.push(Step::Issue { kind: OpKind::Single, tmo_ms: None });
+                sc.push(Step::Settle);
+            }
+            let o = run_script(&sc);
+            let label = format!("{} unread entries of a search, then other operations{}", n, match &fault { None => "", Some(Step::Close) => ", then close", _ => ", then reset" });
+            out.case(&label, true);
+            out.stat("fault.UnreadSearchItems");
+            if n <= 300 {
+                judge(&mut out, &label, &o, if has_fault { 5 } else { 4 }, has_fault);
+            }
+            let served = o.trace.iter().any(|t| t.starts_with("cli done 1 frame:"))
+                && o.trace.iter().any(|t| t.starts_with("cli next 2 ") && t.contains("item:entry:"));
+            out.r(&format!("faults.unread-search-items-do-not-stall-the-connection {}", label), served,
+                  &format!("{:?}", o.trace.iter().filter(|t| t.starts_with("cli ")).collect::<Vec<_>>()));
+            if has_fault {
+                let ended = o.trace.iter().any(|t| t.starts_with("drv result"));
+                let failed = o.trace.iter().any(|t| t.starts_with("cli done 3 ") && !t.contains("frame:"));
+                out.r(&format!("faults.connection-loss-is-seen-despite-unread-items {}", label), ended && failed && o.watchdog_stuck.is_empty(),
+                      &format!("driver-ended={} op3-failed={} stuck={:?}", ended, failed, o.watchdog_stuck));
+            }
+        }
+    }
     // corpus (F27): a frame that is not an LDAPResult under the ID of a single-result operation — an RFC-legal
     // IntermediateResponse (25) to an extended operation, a SearchResultEntry (4) under the wrong ID, a result
     // whose body is malformed — must fail that operation with an error (not panic its caller's task), leave the
